@@ -55,7 +55,11 @@ class Built:
 
 
 def build_device(avoid_blockram=False, with_bulk=True, bulk_in_ep=1, bulk_out_ep=2, bulk_max=8,
-                 src_lengths=(5, 8, 3, 16), ep0_max=64):
+                 src_lengths=(5, 8, 3, 16), ep0_max=64, skip=(), skip_kw="skiplist", custom=False, stall_only=False,
+                 full_speed_only=1, domain_reset=False):
+    """skip: bRequest numbers the standard handler is told not to handle (passed as `skiplist=` or the deprecated
+    `blacklist=`); custom: add a request handler that claims vendor request 0x42; stall_only: add an extra
+    StallOnlyRequestHandler with a condition; domain_reset: expose the reset of the "usb" clock domain."""
     from amaranth import Elaboratable, Module, Signal, Mux
     from luna.gateware.interface.utmi import UTMIInterface
     from luna.gateware.usb.usb2.device import USBDevice
@@ -74,14 +78,46 @@ def build_device(avoid_blockram=False, with_bulk=True, bulk_in_ep=1, bulk_out_ep
     b.descriptors = make_descriptors(ep0_max)
     b.known_desc = known_descriptor_values(b.descriptors)
     b.ep0_max = ep0_max
+    kw = {"avoid_blockram": avoid_blockram}
+    b.skip = tuple(sorted(skip))
+    if skip:
+        kw[skip_kw] = [(lambda setup, n=n: setup.request == n) for n in b.skip]
     if ep0_max == 64:
-        b.control = dev.add_standard_control_endpoint(b.descriptors, avoid_blockram=avoid_blockram)
+        b.control = dev.add_standard_control_endpoint(b.descriptors, **kw)
     else:
         b.control = USBControlEndpoint(utmi=dev.utmi, max_packet_size=ep0_max)
-        b.control.add_standard_request_handlers(b.descriptors, avoid_blockram=avoid_blockram)
+        b.control.add_standard_request_handlers(b.descriptors, **kw)
         dev.add_endpoint(b.control)
     b.observer = Observer()
     b.control.add_request_handler(b.observer)
+    b.claimed = ()
+    if custom:
+        from usb_protocol.types import USBRequestType
+
+        class Custom(USBRequestHandler):
+            """Claims vendor request 0x42 (any direction / length): ZLP at an IN status stage, ACK at an OUT one, STALL
+            in the data stage.  What it answers is its own business; the checks only follow the SETUP of such requests."""
+            def elaborate(self, platform):
+                m = Module()
+                i = self.interface
+                with m.If((i.setup.type == USBRequestType.VENDOR) & (i.setup.request == 0x42)):
+                    m.d.comb += i.claim.eq(1)
+                    with m.If(i.data_requested):
+                        m.d.comb += i.handshakes_out.stall.eq(1)
+                    with m.If(i.status_requested):
+                        with m.If(i.tokenizer.is_in):
+                            m.d.comb += self.send_zlp()
+                        with m.Else():
+                            m.d.comb += i.handshakes_out.ack.eq(1)
+                return m
+        b.custom = Custom()
+        b.control.add_request_handler(b.custom)
+        b.claimed = (2 * 256 + 0x42,)
+    if stall_only:
+        from luna.gateware.usb.usb2.request import StallOnlyRequestHandler
+        b.control.add_request_handler(StallOnlyRequestHandler(stall_condition=lambda setup: setup.request == 0x99))
+    b.full_speed_only = full_speed_only
+    b.dom_reset = Signal() if domain_reset else None
     b.src_enable = Signal()
     b.bulk_in = b.bulk_out = None
     if with_bulk:
@@ -99,6 +135,9 @@ def build_device(avoid_blockram=False, with_bulk=True, bulk_in_ep=1, bulk_out_ep
         def elaborate(self, platform):
             m = Module()
             m.submodules.dev = dev
+            if b.dom_reset is not None:
+                from amaranth import ResetSignal
+                m.d.comb += ResetSignal("usb").eq(b.dom_reset)
             if with_bulk:
                 # counter source: `last`-terminated transfers whose lengths cycle through src_lengths - including exact
                 # multiples of the max packet size, after which the endpoint owes the host a zero-length packet
@@ -367,6 +406,16 @@ class CtlHost(UTMIHost):
                     await self.cycle(ctx, line=0)
                 self.last_rx_end = self.cycle_no
                 await self._window(ctx, a.get("wait", 8))
+            elif k == "dreset":
+                # the reset of the DUT's clock domain, asserted for a few cycles in the middle of whatever goes on
+                ctx.set(self.b.dom_reset, 1)
+                for _ in range(a.get("cycles", 3)):
+                    await self.cycle(ctx)
+                ctx.set(self.b.dom_reset, 0)
+                self.pkts = []
+                self._cur = None
+                self.last_rx_end = self.cycle_no
+                await self._window(ctx, a.get("wait", 12))
             elif k == "idle":
                 await self._window(ctx, a.get("n", 10))
             elif k == "src":
@@ -432,6 +481,7 @@ class Runner:
 
 def _prime_device(ctx, b):
     utmi.prime_device(ctx, b.dev)
+    ctx.set(b.dev.full_speed_only, b.full_speed_only)
     ctx.set(b.src_enable, 0)
 
 
